@@ -65,6 +65,9 @@ impl Listing {
             return Err(error!(LineBufferOverflow));
         }
         let line = Line::new(line);
+        if line.to_string().len() > MAX_LINE_LEN {
+            return Err(error!(LineBufferOverflow));
+        }
         if line.is_empty() {
             if !line.is_direct() {
                 Arc::make_mut(&mut self.source).remove(&line.number());
